@@ -132,6 +132,10 @@ def extract(config="default", repo=None, target=None, quiet=False):
     digest = source_digest(repo)
     out = facts_dir(config, repo, digest)
     if _complete(out, cfg["expect"]):
+        try:
+            os.utime(os.path.dirname(out))
+        except OSError:
+            pass
         return out
     lock = os.path.join(CACHE, "extract.lock")
     os.makedirs(CACHE, exist_ok=True)
@@ -179,7 +183,7 @@ def extract(config="default", repo=None, target=None, quiet=False):
     return out
 
 
-def _gc_facts(keep, max_keep=4):
+def _gc_facts(keep, max_keep=10):
     root = os.path.join(CACHE, "facts")
     ds = [d for d in os.listdir(root) if os.path.isdir(os.path.join(root, d)) and d != keep and d != "test"]
     ds.sort(key=lambda d: os.path.getmtime(os.path.join(root, d)))
